@@ -346,6 +346,7 @@ func (b *backend) handle(raw net.Conn) {
 	}
 	b.px.deliveredAtBackend(n)
 	if pl.px != b.px && pl.altPx != b.px {
+		pl.wrong.Store(b.px)
 		cs.fail(pl, "cross-wired", "connection made to proxy %s (backend %s) was bridged to backend %s of proxy %s", pl.px.name, pl.px.be.id, b.id, b.px.name)
 		return
 	}
